@@ -263,7 +263,7 @@ sys.exit(1 if bad else 0)
 
 
 def main():
-    run = report.Runner(PID, design_ref='5/C18')
+    run = report.Runner(PID, design_ref='5/C18', level='proof')
     st = bench.setup()
     mods = st['mods']
     run.encode(mods['hill'].Hill.Calculate, 'iOpt.problems.hill.Hill.Calculate')
